@@ -436,7 +436,8 @@ func analyse(gs *GroupScan, g *GroupCfg, rec *ScanRecord) *Analysis {
 		for _, n := range a.Untainted {
 			free[n.Name] = &room{new(big.Int).Set(resCPU(n.Status.Allocatable)), new(big.Int).Set(resMem(n.Status.Allocatable))}
 		}
-		roundDown = true // the smallest requests any rounding gives: the permission must not be narrower than a legitimate trigger
+		// everything rounded up: the least room and the largest pod any rounding gives - the permission must
+		// not be narrower than a legitimate trigger
 		for _, p := range gs.Pods {
 			if r, ok := free[p.Spec.NodeName]; ok {
 				c, m := podRequest(p)
@@ -444,7 +445,6 @@ func analyse(gs *GroupScan, g *GroupCfg, rec *ScanRecord) *Analysis {
 				r.mem.Sub(r.mem, m)
 			}
 		}
-		roundDown = false
 		for _, p := range gs.Pods {
 			if p.Status.Phase != v1.PodPending {
 				continue
